@@ -14,6 +14,8 @@ import random
 import subprocess
 from fractions import Fraction
 
+import numpy as np
+
 from . import common, py2lean, trspecs
 from .fmutil import EPOCH, ad, err_class, fm
 
@@ -687,8 +689,190 @@ def validate_info(rng, n, res):
     res.extra["translation_validation_info"] = stats
 
 
+def validate_regrid(rng, n, res):
+    """`ARegridding._get_info` / `_check_and_set_out_mask` on *real* adapter objects (a subclass whose
+    `_update_grid_specs` is `RegridNearest`'s as far as the metadata go, and whose upstream exchange answers with a
+    given info) against the translated definitions: one to three requests per adapter, the state carried from one
+    to the next; grids, masks, `a != b`, `x.crs` come from the live catalogue (plus two grids that carry a CRS)"""
+    from finam.adapters.regrid import ARegridding
+    from finam.data.tools import mask as mtools
+    from .engines import c07
+
+    if not all(common.TRANSLATION_STATUS.get(f, {}).get("translated") for f in ("ARegridding__get_info", "ARegridding__check_and_set_out_mask")):
+        return
+    grids = [g for _n, g in c07.GRIDS] + [fm.UniformGrid((3, 4), crs="EPSG:4326"), fm.UniformGrid((4, 5), crs="EPSG:4326")]
+    names = list(c07.GRID_NAMES) + ["u34_crs", "u45_crs"]
+    ng = len(grids)
+    gid = lambda g: None if g is None else next((k for k in range(ng) if grids[k] is g), -1)  # noqa
+    no_attr = [k for k in range(ng) if not hasattr(grids[k], "crs")]
+    with_crs = [[k, 1] for k in range(ng) if getattr(grids[k], "crs", None) is not None]
+    ne_tab = []
+    for a in range(ng):
+        for b in range(ng):
+            try:
+                if grids[a] != grids[b]:
+                    ne_tab.append([a, b])
+            except Exception:  # noqa
+                pass
+    mopts = [None, "flex", "none"] + list(c07.MASKS)
+    mobj = lambda m: None if m is None else (fm.Mask.FLEX if m == "flex" else fm.Mask.NONE if m == "none" else c07.MASKS[m])  # noqa
+
+    def mcode(o):
+        if o is None:
+            return None
+        if o is fm.Mask.FLEX:
+            return -1
+        if o is fm.Mask.NONE:
+            return -2
+        for k, arr in c07.MASKS.items():
+            if np.shape(o) == arr.shape and np.array_equal(np.asarray(o), arr):
+                return k
+        return 99
+
+    def fits(m, g):
+        if not isinstance(m, int) or g is None:
+            return True
+        nm = names[g][:-4] if names[g].endswith("_crs") else names[g]
+        return nm in c07.MASK_FITS[m]
+
+    explicit = sorted(c07.MASKS)
+    me_tab = []
+    for a in [None, -1, -2] + explicit:
+        for b in [None, -1, -2] + explicit:
+            ao = mobj({-1: "flex", -2: "none"}.get(a, a))
+            bo = mobj({-1: "flex", -2: "none"}.get(b, b))
+            try:
+                if mtools.masks_equal(ao, bo, None, None):
+                    me_tab.append([[a, b], [None, None]])
+            except Exception:  # noqa
+                pass
+
+    class MetaRegrid(ARegridding):
+        answer = None
+
+        def _update_grid_specs(self):
+            self._check_and_set_out_mask()
+
+        def _get_data(self, time, target):
+            return None
+
+        def exchange_info(self, info=None):
+            return self.answer
+
+    def state(ad):
+        return [gid(ad.input_grid), gid(ad.output_grid), mcode(ad.output_mask), mcode(ad.downstream_mask), mcode(ad.input_mask),
+                bool(ad._is_initialized), bool(ad._out_mask_checked)]
+
+    def flat(x):
+        out = []
+        while isinstance(x, list) and len(x) == 2 and isinstance(x[1], list) and len(out) < 5:
+            out.append(x[0])
+            x = x[1]
+        return out + (x if isinstance(x, list) else [x])
+
+    reqs, reals = [], []
+    stats = {"adapters": 0, "ARegridding__get_info": 0, "ARegridding__check_and_set_out_mask": 0, "ok": 0, "errors": {}, "second_calls": 0, "mismatch": 0}
+    pick = lambda xs, p_none=0.3: None if rng.random() < p_none else rng.choice(xs)  # noqa
+    plain = [k for k in range(ng) if k not in no_attr]
+    for _ in range(n):
+        ig0 = pick(plain + no_attr[:1], 0.6)
+        og0 = pick(plain + no_attr[:1], 0.5)
+        om0 = rng.choice([None, None, "flex", "none"] + explicit)
+        if not fits(om0, og0):
+            continue
+        try:
+            ad = MetaRegrid(in_grid=None if ig0 is None else grids[ig0], out_grid=None if og0 is None else grids[og0], out_mask=mobj(om0))
+        except Exception:  # noqa
+            continue
+        stats["adapters"] += 1
+        wild = rng.random() < 0.35     # a third of the adapters see arbitrary requests, the others mostly well-formed ones
+        for call in range(rng.choice([1, 2, 2, 3])):
+            ing = pick(plain, 0.15 if wild else 0.03) if rng.random() < (0.9 if wild else 0.98) else rng.choice(no_attr)
+            if ig0 is not None and ing is not None and rng.random() < 0.5:
+                ing = ig0
+            inm = rng.choice(([None] if wild else []) + ["flex", "none", "none"] + [m for m in explicit if fits(m, ing)])
+            rg = pick(plain, 0.3 if wild or og0 is not None else 0.0) if rng.random() < (0.9 if wild else 0.98) else rng.choice(no_attr)
+            if og0 is not None and rg is not None and rng.random() < (0.6 if wild else 0.9):
+                rg = og0
+            if call and rg is not None and ad.output_grid is not None and rng.random() < (0.5 if wild else 0.9):
+                rg = gid(ad.output_grid)
+            rm = rng.choice(([None] if wild else []) + ["flex", "flex", "none"] + [m for m in explicit if fits(m, rg)])
+            if not wild and mcode(ad.output_mask) is not None and mcode(ad.output_mask) >= 0 and rng.random() < 0.6:
+                rm = rng.choice(["flex", mcode(ad.output_mask)])
+            try:
+                answer = fm.Info(time=None, grid=None if ing is None else grids[ing], mask=mobj(inm))
+                answer.mask = mobj(inm)
+                req = fm.Info(time=None, grid=None if rg is None else grids[rg], mask=mobj(rm))
+                req.mask = mobj(rm)
+            except Exception:  # noqa
+                break
+            ad.answer = answer
+            before = state(ad)
+            if 99 in before or -1 in before[:2]:
+                break
+            # (the final `copy_with` of the answer is not part of the translated slice: its errors are not compared)
+            orig_copy = fm.Info.copy_with
+            marker = {}
+
+            def cw(self_, *a, **k):
+                if self_ is answer:
+                    marker["reached"] = True
+                    return self_
+                return orig_copy(self_, *a, **k)
+            fm.Info.copy_with = cw
+            try:
+                try:
+                    ad._get_info(req)
+                    real = {"ok": state(ad)}
+                except Exception as e:  # noqa
+                    real = {"err": err_class(e)}
+            finally:
+                fm.Info.copy_with = orig_copy
+            reqs.append({"fn": "ARegridding__get_info", "args": before + [rg, mcode(mobj(rm)), ing, mcode(mobj(inm)), ne_tab, no_attr, with_crs, me_tab]})
+            reals.append(real)
+            if call:
+                stats["second_calls"] += 1
+            if "err" in real:
+                break
+        # the mask procedure alone, on a fresh state
+        om, dm, chk = rng.choice(mopts), rng.choice(mopts), rng.random() < 0.2
+        ad2 = MetaRegrid(out_mask=mobj(om))
+        ad2.downstream_mask, ad2._out_mask_checked = mobj(dm), chk
+        try:
+            ad2._check_and_set_out_mask()
+            real = {"ok": [bool(ad2._out_mask_checked), mcode(ad2.output_mask)]}
+        except Exception as e:  # noqa
+            real = {"err": err_class(e)}
+        reqs.append({"fn": "ARegridding__check_and_set_out_mask", "args": [mcode(mobj(om)), mcode(mobj(dm)), chk, me_tab]})
+        reals.append(real)
+    if not reqs:
+        return
+    for rq, real, lv in zip(reqs, reals, _trdriver(reqs)):
+        stats[rq["fn"]] += 1
+        if "err" in real or "err" in lv:
+            agree = real.get("err") == lv.get("err")
+            if "err" in real:
+                stats["errors"][real["err"]] = stats["errors"].get(real["err"], 0) + 1
+        else:
+            stats["ok"] += 1
+            got = flat(lv["ok"])
+            if rq["fn"] == "ARegridding__get_info":
+                stats["get_info_ok"] = stats.get("get_info_ok", 0) + 1
+                if rq["args"][5]:
+                    stats["get_info_ok_initialized"] = stats.get("get_info_ok_initialized", 0) + 1
+                # translated order: (_is_initialized, _out_mask_checked, downstream_mask, input_grid, input_mask, output_grid, output_mask)
+                got = [got[3], got[5], got[6], got[2], got[4], got[0], got[1]]
+            agree = got == real["ok"]
+        if not agree:
+            stats["mismatch"] += 1
+            res.diverge("translation/" + rq["fn"], {"fn": rq["fn"], "args": rq["args"]}, real, lv)
+    res.extra["translation_validation_regrid"] = stats
+
+
 def validate(prop, rng, n_per_fn, res):
     """runs the validation for the translated functions owned by `prop`; divergences go to `res`"""
+    if prop in ("C07", "C16") and os.path.exists(TRDRIVER):
+        validate_regrid(rng, max(400, 3 * n_per_fn), res)
     if prop == "C07" and os.path.exists(TRDRIVER):
         validate_info(rng, max(1500, 10 * n_per_fn), res)
     if prop == "C03" and os.path.exists(TRDRIVER):
